@@ -472,6 +472,10 @@ func (w *world) tamper(rng *mrand.Rand) {
 			si := rng.Intn(len(w.snaps))
 			if v, ok := w.snaps[si][n]; ok {
 				j[n] = v
+				// the restored value keeps the age it had: securecookie's timestamp check looks at the value, not the jar
+				if bt, ok := w.snapBorn[si][n]; ok {
+					w.born[fmt.Sprintf("%d/%s", w.b, n)] = bt
+				}
 			} else {
 				delete(j, n)
 			}
@@ -483,6 +487,13 @@ func (w *world) tamper(rng *mrand.Rand) {
 
 func (w *world) snapshot() {
 	w.snaps = append(w.snaps, w.jars[w.b].clone())
+	bm := map[string]int64{}
+	for n := range w.jars[w.b] {
+		if bt, ok := w.born[fmt.Sprintf("%d/%s", w.b, n)]; ok {
+			bm[n] = bt
+		}
+	}
+	w.snapBorn = append(w.snapBorn, bm)
 	w.rec(M{"op": "snap", "id": len(w.snaps) - 1})
 }
 
@@ -931,6 +942,9 @@ func (w *world) scripted(prop string, sc int, rng *mrand.Rand) {
 				for _, n := range []string{"_oidc_raczylo_a", "_oidc_raczylo_m"}[rng.Intn(2):][:1] {
 					if v, ok := w.jars[0][n]; ok {
 						w.jars[1][n] = v
+						if bt, ok := w.born["0/"+n]; ok {
+							w.born["1/"+n] = bt
+						}
 						w.rec(M{"op": "jar", "edit": "from", "name": shortName(n), "b": 0})
 						w.tampered[1] = true
 						T.stat("handler.merged-jars")
